@@ -5,6 +5,7 @@ package c18
 import (
 	"bytes"
 	"context"
+	"crypto/sha256"
 	"encoding/json"
 	"fmt"
 	"net/http"
@@ -351,7 +352,7 @@ func cli(t *testing.T, env *report.Env, rep *report.Report, base string) {
 		n = 4
 	}
 	sec := rep.Add(&report.Section{Name: fmt.Sprintf("cli-put-all-flag-combinations-len%d", n), Engine: "enum", Exhaustive: true, Extra: map[string]int64{},
-		Rule: "the setec binary built from the working tree, against a loopback server: every combination of --verbatim, --trim-space, --empty-ok × source {--from-file, pipe} × every input over {20,0A,61,FF} up to the length bound and over the atoms {U+3000, U+00A0, U+2003, 20, 61, FF} up to 2 (quick) / 3 (thorough) atoms; compared with a reference of the stated policy (value received by the server, exit status, and zero requests on refusal); non-trivial = inputs with surrounding whitespace or empty"})
+		Rule: "the setec binary built from the working tree, against a loopback server: every combination of --verbatim, --trim-space, --empty-ok × source {--from-file, pipe} × every input over {20,0A,61,FF} up to the length bound and over the atoms {U+3000, U+00A0, U+2003, 20, 61, FF} up to 2 (quick) / 3 (thorough) atoms, plus binary and text values of 65535, 65537, 2^20-1, 2^20, 2^20+1 and 2^21+17 bytes through file and pipe; compared with a reference of the stated policy (value received by the server, exit status, and zero requests on refusal); non-trivial = inputs with surrounding whitespace or empty"})
 	bin := filepath.Join(base, "setec")
 	args := []string{"build", "-o", bin}
 	if mf := os.Getenv("VERIF_MODFILE"); mf != "" {
@@ -408,6 +409,23 @@ func cli(t *testing.T, env *report.Env, rep *report.Report, base string) {
 			}
 		}
 	}
+	// large values through both input sources (sizes around 64 KiB and 1 MiB, binary and text)
+	for _, n := range []int{65535, 65537, 1<<20 - 1, 1 << 20, 1<<20 + 1, 2<<20 + 17} {
+		bin := bytes.Repeat([]byte{0xff, 0x00, 0x0a}, n/3+1)[:n]
+		txt := bytes.Repeat([]byte("abcdefg"), n/7+1)[:n]
+		for _, in := range [][]byte{bin, txt} {
+			for _, ff := range []bool{true, false} {
+				jobs = append(jobs, job{in: in, fromFile: ff, id: id})
+				id++
+			}
+		}
+	}
+	hexClip := func(b []byte) string {
+		if len(b) <= 64 {
+			return fmt.Sprintf("%x", b)
+		}
+		return fmt.Sprintf("%x...(%d bytes, sha256 %x)", b[:16], len(b), sha256.Sum256(b))
+	}
 	var mu sync.Mutex
 	// requests are counted globally, so CLI runs are sequential
 	for _, j := range jobs {
@@ -447,10 +465,10 @@ func cli(t *testing.T, env *report.Env, rep *report.Report, base string) {
 		}
 		sec.Evaluations++
 		want, refused := cliReference(j.in, j.verb, j.trim, j.empty)
-		desc := fmt.Sprintf("input %x flags verbatim=%v trim-space=%v empty-ok=%v source=%s", j.in, j.verb, j.trim, j.empty, map[bool]string{true: "file", false: "pipe"}[j.fromFile])
+		desc := fmt.Sprintf("input %s flags verbatim=%v trim-space=%v empty-ok=%v source=%s", hexClip(j.in), j.verb, j.trim, j.empty, map[bool]string{true: "file", false: "pipe"}[j.fromFile])
 		fail := func(kind, msg string) {
 			mu.Lock()
-			rep.Violate(sec.Name, "cli/"+kind+": "+desc, desc+": "+msg+" (output: "+report.Clip(report.OneLine(string(out)), 160)+")", map[string]any{"input_hex": fmt.Sprintf("%x", j.in), "verbatim": j.verb, "trim": j.trim, "empty_ok": j.empty, "from_file": j.fromFile})
+			rep.Violate(sec.Name, "cli/"+kind+": "+desc, desc+": "+msg+" (output: "+report.Clip(report.OneLine(string(out)), 160)+")", map[string]any{"input_hex": hexClip(j.in), "verbatim": j.verb, "trim": j.trim, "empty_ok": j.empty, "from_file": j.fromFile})
 			mu.Unlock()
 		}
 		if len(j.in) == 0 || (utf8.Valid(j.in) && len(bytes.TrimSpace(j.in)) != len(j.in)) {
@@ -465,7 +483,7 @@ func cli(t *testing.T, env *report.Env, rep *report.Report, base string) {
 				fail("refusal-exit-status", "must be refused, but the command exited 0")
 			}
 			if gerr == nil {
-				fail("refusal-stored", fmt.Sprintf("must be refused, but the server stored %x", sv.Value))
+				fail("refusal-stored", fmt.Sprintf("must be refused, but the server stored %s", hexClip(sv.Value)))
 			}
 			continue
 		}
@@ -487,9 +505,13 @@ func cli(t *testing.T, env *report.Env, rep *report.Report, base string) {
 		if !ok && !(mayRefuse && gerr != nil && sent == 0 && exit != 0) {
 			got := "nothing"
 			if gerr == nil {
-				got = fmt.Sprintf("%x", sv.Value)
+				got = hexClip(sv.Value)
 			}
-			fail("value-sent", fmt.Sprintf("server received %s, policy says one of %x (exit %d, %d requests)", got, want, exit, sent))
+			var ws []string
+			for _, w := range want {
+				ws = append(ws, hexClip(w))
+			}
+			fail("value-sent", fmt.Sprintf("server received %s, policy says one of %v (exit %d, %d requests)", got, ws, exit, sent))
 		} else if ok && exit != 0 {
 			fail("exit-status", "value stored but the command failed")
 		}
